@@ -87,9 +87,15 @@ def _path_prefixes(node) -> list[str]:
     return out
 
 
-def _stored_paths(fn) -> set:
-    """source text of every assignment / deletion / in-place target (and its sub-targets) in `fn`"""
-    out = set()
+def _stored_paths(fn) -> dict:
+    """source text of every assignment / deletion / in-place target (and its sub-targets) in `fn` -> the last line
+    where it is stored (infinity when a store sits in a loop: it may run again later)"""
+    out: dict = {}
+    in_loop = set()
+    for n in ast.walk(fn):
+        if isinstance(n, (ast.For, ast.While, ast.AsyncFor)):
+            for m in ast.walk(n):
+                in_loop.add(id(m))
     for n in ast.walk(fn):
         tg = []
         if isinstance(n, (ast.Assign, ast.Delete)):
@@ -100,12 +106,18 @@ def _stored_paths(fn) -> set:
             tg = [n.target]
         elif isinstance(n, (ast.With, ast.AsyncWith)):
             tg = [it.optional_vars for it in n.items if it.optional_vars is not None]
+        line = float("inf") if id(n) in in_loop or not hasattr(n, "lineno") else n.lineno
         for t in tg:
             for e in ast.walk(t):
+                key = None
+                if not isinstance(getattr(e, "ctx", None), (ast.Store, ast.Del)):
+                    continue
                 if isinstance(e, (ast.Name, ast.Attribute)):
-                    out.add(ast.unparse(e))
+                    key = ast.unparse(e)
                 if isinstance(e, ast.Subscript):
-                    out.add(ast.unparse(e.value))
+                    key = ast.unparse(e.value)
+                if key is not None:
+                    out[key] = max(out.get(key, 0), line)
     return out
 
 
@@ -265,6 +277,7 @@ def subst_aliases(fn, written_by_callees: set = frozenset()):
     `written_by_callees`: attribute names of `self` written by methods the function calls (an alias of `self.<attr>`
     taken before such a call could be stale: left alone)."""
     for _ in range(4):
+        fn = renumber(fn)
         cnt = _names_assigned(fn)
         stored = _stored_paths(fn)
         mapping, drop = {}, []
@@ -278,9 +291,8 @@ def subst_aliases(fn, written_by_callees: set = frozenset()):
                 continue
             pre = _path_prefixes(val)
             root = pre[-1]
-            if any(p in stored for p in pre):
-                continue
-            if cnt.get(root, 0) > 1:             # the root name is rebound somewhere (loop variable reassigned, ...)
+            # nothing on the aliased path is stored at or after the alias (stores before it are what it reads)
+            if any(stored.get(p, 0) >= n.lineno for p in pre):
                 continue
             if root == "self" and len(pre) >= 2:
                 attr = pre[-2].split(".", 1)[1]
